@@ -41,6 +41,7 @@ type vcAttr struct {
 	Age       int      `json:"age"`
 	About     string   `json:"about"` // administrative record: the catalogue bundle the status report is about ("" = some unknown bundle)
 	RKind     string   `json:"rkind"` // received | forwarded | delivered | deleted
+	Desc      bool     `json:"desc"`  // extension blocks on the wire in descending order of their numbers (a foreign node's choice)
 	Lsd       int      `json:"lsd"`   // > 0: the bundle carries DTLSR link-state data of node dtn://lsorigin/ with this timestamp
 }
 
@@ -512,6 +513,11 @@ func (w *vcWorld) build(name string) bpv7.Bundle {
 		cbs = append(cbs, pl)
 	}
 	b := bpv7.MustNewBundle(pb, cbs)
+	if a.Desc {
+		for i, j := 0, len(b.CanonicalBlocks)-2; i < j; i, j = i+1, j-1 {
+			b.CanonicalBlocks[i], b.CanonicalBlocks[j] = b.CanonicalBlocks[j], b.CanonicalBlocks[i]
+		}
+	}
 	w.orig[name] = b
 	var buf bytes.Buffer
 	_ = b.WriteBundle(&buf)
